@@ -416,6 +416,14 @@ def recomputed_before_read(ctx, E: Effects, attr: str, fam) -> bool:
                 first_read = len(p.events)
             if first_read is not None and (first_write is None or first_write > first_read):
                 return False
+            # ... and the recomputed value must be what the forward leaves behind: a later
+            # store of the attribute's own (saved) value puts a previous sample back, so the
+            # state that cost / summary read afterwards is not a function of the parameters
+            if first_write is not None:
+                for e in p.events[first_write + 1:]:
+                    if e.kind == 'setattr' and e.data[0] == SELF and e.data[1] == attr and \
+                            e.data[2] == at:
+                        return False
     return True
 
 
